@@ -100,6 +100,13 @@ impl Timeout for DurationTimeout {
 pub trait Timeout {
     #[must_use]
     fn is_complete(&self) -> bool;
+
+    /// verification hook: lets a checker's timeout type answer a search call at
+    /// `current_depth` itself (assume-guarantee over the recursion); `None` = search for real
+    #[cfg(rustyyato_chess_verif)]
+    fn verif_oracle(&self, _mv: ChessMove, _current_depth: u16) -> Option<Score> {
+        None
+    }
 }
 
 impl<T: Timeout + Copy> TimeoutRef for T {}
@@ -109,6 +116,11 @@ impl<T: ?Sized + Timeout> Timeout for &T {
     #[inline]
     fn is_complete(&self) -> bool {
         T::is_complete(self)
+    }
+
+    #[cfg(rustyyato_chess_verif)]
+    fn verif_oracle(&self, mv: ChessMove, current_depth: u16) -> Option<Score> {
+        T::verif_oracle(self, mv, current_depth)
     }
 }
 
@@ -371,6 +383,11 @@ impl Engine {
         mv: ChessMove,
         args: &AlphaBetaArgs<'_, impl TimeoutRef>,
     ) -> Score {
+        #[cfg(rustyyato_chess_verif)]
+        if let Some(score) = args.timeout.verif_oracle(mv, args.current_depth) {
+            return score;
+        }
+
         let board = unsafe { args.old_board.move_unchecked(mv) };
         let was_capture = args.old_board.raw().get(mv.dest).is_some();
         let list = if was_capture {
@@ -913,4 +930,66 @@ fn test() {
     }
 
     panic!()
+}
+
+/// Verification hooks (compiled only with `--cfg rustyyato_chess_verif`): entry points to the
+/// private colour policies and the private evaluation.
+#[cfg(rustyyato_chess_verif)]
+pub mod verif {
+    use super::{Black, Engine, Policy, Score, White};
+    use chess_bitboard::Color;
+    use chess_movegen::Board;
+
+    pub fn is_better(color: Color, score: Score, new: Score) -> bool {
+        match color {
+            Color::White => White::is_better(score, new),
+            Color::Black => Black::is_better(score, new),
+        }
+    }
+
+    pub fn update_cutoff(color: Color, alpha: &mut Score, beta: &mut Score, score: Score) {
+        match color {
+            Color::White => White::update_cutoff(alpha, beta, score),
+            Color::Black => Black::update_cutoff(alpha, beta, score),
+        }
+    }
+
+    pub fn worst_score(color: Color) -> Score {
+        match color {
+            Color::White => White::WORST_SCORE,
+            Color::Black => Black::WORST_SCORE,
+        }
+    }
+
+    pub fn best_score(color: Color) -> Score {
+        match color {
+            Color::White => White::BEST_SCORE,
+            Color::Black => Black::BEST_SCORE,
+        }
+    }
+
+    pub fn policy_color(white: bool) -> Color {
+        if white {
+            White::COLOR
+        } else {
+            Black::COLOR
+        }
+    }
+
+    pub fn is_beta_cutoff(color: Color) -> bool {
+        match color {
+            Color::White => White::IS_BETA_CUTOFF,
+            Color::Black => Black::IS_BETA_CUTOFF,
+        }
+    }
+
+    impl Engine {
+        pub fn verif_eval(&mut self, board: &Board, current_depth: u16) -> Score {
+            self.eval(board, current_depth)
+        }
+
+        pub fn verif_insufficient_material(&self, board: &Board) -> bool {
+            self.insuffient_material(board)
+        }
+    }
 }
